@@ -24,6 +24,8 @@ pub struct OracleState {
     /// (party, group, epoch): the party crashed with unwritten private sends in that epoch, so its
     /// sender ratchet rolled back and receivers may legitimately reject what it sends afterwards
     pub rolled_back: BTreeSet<(usize, usize, u64)>,
+    /// (party, group, proposal id): the application cleared the party's proposal cache while it held this proposal
+    pub cache_cleared: BTreeSet<(usize, usize, u64)>,
     pub twins: BTreeMap<(usize, usize), Twin>,
     pub at_write: BTreeMap<(usize, usize), Vec<(&'static str, Vec<u8>)>>,
     pub leftmost_checked: BTreeSet<(usize, u64)>,
@@ -361,7 +363,16 @@ pub fn c06_after_write(w: &mut World, p: usize, g: usize) -> VResult<()> {
         &party.signer,
         w.suite,
     );
-    let loaded = guarded(&prop, "load_group(fork)", || client.load_group(&gid))?;
+    // (knob tree-oob: the state was written without its tree; the application supplies the tree it exported)
+    let tree_now = if w.oob() {
+        w.parties[p].mems[g].group.as_ref().and_then(|g| g.export_tree().to_bytes().ok())
+    } else {
+        None
+    };
+    if tree_now.is_some() {
+        w.stats.probe("load-with-tree-from-the-application");
+    }
+    let loaded = guarded(&prop, "load_group(fork)", || crate::world::load_group_oob(&client, &gid, tree_now.as_deref()))?;
     w.stats.check("load-equals-saved");
     let loaded = match loaded {
         Ok(l) => l,
@@ -880,6 +891,8 @@ pub fn do_special(w: &mut World, kind: &str, a: u64, b: u64, c: u64) -> VResult<
         "forge" if b >= 14 => crate::c10::do_forge_update(w, a as usize, 0, c as usize, None),
         "update_clash" => crate::c10::do_update_clash(w, a as usize, 0, b),
         "forge_ext" => crate::c10::do_forge_ext_update(w, 0, a as usize),
+        "forge_ref" => crate::c10::do_forge_ref_add(w, a as usize, c as usize, b),
+        "custom_type" => crate::codec::do_custom_type(w, a as usize, c as usize, b),
         "forge" => crate::c10::do_forge(w, a as usize, 0, b, c as usize),
         "sflip" => crate::codec::do_stored_flip(w, a as usize, c as usize, b),
         "observe" => crate::observer::do_observe(w, a as usize, b),
@@ -888,6 +901,8 @@ pub fn do_special(w: &mut World, kind: &str, a: u64, b: u64, c: u64) -> VResult<
         "nm_propose" => do_nm_propose(w, a as usize, b as usize),
         "xgroup" => do_xgroup(w, a as usize, b),
         "late_seq" => do_late_seq(w, a as usize, b as usize),
+        "clear_cache" => do_clear_cache(w, a as usize, b as usize),
+        "member_hpke" => crate::treeor::do_member_hpke(w, a as usize, b, c as usize),
         "obs_snapshot" => crate::observer::do_obs_snapshot(w, a as usize),
         "obs_stale_ref" => crate::observer::do_obs_stale_ref(w, a as usize, b),
         "obs_propose" => crate::observer::do_obs_propose(w, a as usize, b, c as usize),
@@ -1855,6 +1870,10 @@ pub fn expect_msg(w: &World, p: usize, g: usize, id: u64) -> Expect {
             if mem.cached.contains(&id) {
                 return Expect::May;
             }
+            if msg.private && w.ext.cache_cleared.contains(&(p, g, id)) {
+                // taken once, then dropped by clear_proposal_cache: its key is spent, a second copy is a replay
+                return Expect::MustErr;
+            }
             if matches!(msg.pspec, Some(PropSpec::Template { .. })) {
                 return Expect::May;
             }
@@ -1958,6 +1977,10 @@ pub fn stuck_reason(w: &World, p: usize, _g: usize, cid: u64) -> Option<String> 
     {
         // crashed after proposing and before writing: the proposal only exists on the wire
         return Some("own proposal lost in crash".into());
+    }
+    if msg.refs.iter().any(|r| w.msgs[r].private && !mem.cached.contains(r) && w.ext.cache_cleared.contains(&(p, _g, *r))) {
+        // the application cleared the cache; the key of an encrypted proposal is spent, it cannot be taken again
+        return Some("encrypted proposal dropped by clear_proposal_cache".into());
     }
     if msg.refs.iter().any(|r| {
         let pm = &w.msgs[r];
@@ -2229,5 +2252,59 @@ pub fn do_late_seq(w: &mut World, p: usize, g: usize) -> VResult<bool> {
     w.deliver_one(p, g, older, true)?;
     w.stats.fault("N-DUP");
     w.deliver_one(p, g, newer, false)?;
+    Ok(true)
+}
+
+
+/// The application empties p's proposal cache (`Group::clear_proposal_cache`): sent and received proposals are gone,
+/// nothing else changes; the next commit of p carries no proposal by reference; public proposals can be taken again.
+pub fn do_clear_cache(w: &mut World, p: usize, g: usize) -> VResult<bool> {
+    if !w.live(p, g) || w.parties[p].mems[g].pending.is_some() || w.parties[p].mems[g].cached.is_empty() {
+        return Ok(false);
+    }
+    let prop = w.cfg.property.clone();
+    let before = h1(w.parties[p].mems[g].group.as_ref().unwrap()).unwrap_or_default();
+    let _ = lib_call(w, p, Some(g), "clear_proposal_cache", |w| {
+        w.parties[p].mems[g].group.as_mut().unwrap().clear_proposal_cache();
+        Ok(Ok(()))
+    })?;
+    w.stats.op("clear_proposal_cache");
+    w.stats.check("clear-proposal-cache-clears-only-the-cache");
+    let after = h1(w.parties[p].mems[g].group.as_ref().unwrap()).unwrap_or_default();
+    let mut d = diff_states(&before, &after, None);
+    d.retain(|c| *c != "proposals" && *c != "own_proposals");
+    if !d.is_empty() {
+        return Err(Violation::new(
+            &prop,
+            "clear-proposal-cache",
+            format!("clear-cache-changed:{}", d.join("+")),
+            format!("P{p}: clear_proposal_cache() changed {:?}", d),
+        ));
+    }
+    // an empty cache is encoded as an empty map / list: one zero length byte
+    for name in ["proposals", "own_proposals"] {
+        if let Some((_, v)) = after.iter().find(|(n, _)| *n == name) {
+            if v.as_slice() != [0u8] {
+                return Err(Violation::new(
+                    &prop,
+                    "clear-proposal-cache",
+                    format!("cache-not-empty:{name}"),
+                    format!("P{p}: after clear_proposal_cache() the component `{name}` is not empty ({} bytes)", v.len()),
+                ));
+            }
+        }
+    }
+    let dropped: Vec<u64> = w.parties[p].mems[g].cached.iter().copied().collect();
+    w.parties[p].mems[g].cached.clear();
+    w.ev(format!("clear-cache P{p} g{g} dropped={dropped:?}"));
+    let epoch = w.epoch_of(p, g).unwrap_or(0);
+    for id in dropped {
+        w.ext.cache_cleared.insert((p, g, id));
+        // the delivery service can hand out the public proposals of the epoch again (the key of an encrypted one is spent)
+        let m = &w.msgs[&id];
+        if m.epoch == epoch && m.sender != p && !m.private && !w.parties[p].mems[g].inbox.contains(&id) {
+            w.parties[p].mems[g].inbox.push(id);
+        }
+    }
     Ok(true)
 }
